@@ -445,6 +445,16 @@ func TestVerifC09(t *testing.T) {
 	for _, s := range c09Fixed {
 		o.line("lts "+s+" #fixed", ltsPlay(s))
 	}
+	// closing from several goroutines at the same instant: one closes, the others are told "already closed", none panics
+	races := 60
+	if vthorough() {
+		races = 600
+	}
+	for i := 0; i < races; i++ {
+		for _, s := range []string{"new:0 cclose:4", "new:0 start pf:63:0:1:0 cclose:4 pc rc", "new:0 start pf:63:0:1:0 call:1:2:1001 w:1 cclose:3 r:1 pc rc"} {
+			o.line("lts "+s+" #close-race", ltsPlay(s))
+		}
+	}
 	scripts, tags := c09Scripts(vthorough())
 	for i, s := range scripts {
 		if ltsAbort() {
